@@ -539,6 +539,13 @@ func init() {
 			ex.unsupported("vxMode after inputs were declared")
 		}
 		ex.intMode = m == "int"
+		if ex.intMode {
+			if len(ex.globals) > 0 || len(ex.memLayers[0]) > 0 {
+				ex.unsupported("vxMode must be the first statement of the harness")
+			}
+			ex.snapshot = ex.snapshotInt
+			ex.nextObj = ex.snapshot.nextObj
+		}
 		return nil
 	}
 	vxAPI["vxNote"] = func(ex *Exec, fr *Frame, fn *ssa.Function, args []Value, site ssa.Instruction) Value {
@@ -604,6 +611,9 @@ func (ex *Exec) assertion(c *Term, id, site string) {
 		return
 	case "sat":
 		ex.recordViolation("assert", id, "assertion can be false", site, neg)
+		// keep going without assuming the assertion: later assertions on this path are
+		// still examined for every input, including the ones that violate this one
+		return
 	default:
 		ex.inconclusive = append(ex.inconclusive, Inconclusive{Harness: ex.harness, Where: id + " at " + site, Reason: "solver unknown"})
 	}
